@@ -36,4 +36,8 @@ CLAIMED = {
    text="Generated projects (sub-slot efforts, contention, leaves, zones, cross-midnight shifts; forward tasks, project-level and anchored task-level ALAP) are scheduled by the real code; for every judged task the slots between its dependency bound and its end (mirror: between its end and its deadline) are scanned in the final ledger for a slot that is working for all of its resources by the independent calendar, entirely unbooked and unused by the task.",
    note="Sound because bookings are never withdrawn; slot granularity as stated; limited tasks, alternatives and ALAP-propagated tasks are generated but not judged; dependency bounds use the observed predecessor dates.",
    technique="property-based testing (Hypothesis) with a universally quantified validity predicate over free slots, against an independent calendar"),
+ "C09": dict(
+   text="Metamorphic pairs (base project vs. base project plus one lowest-priority task nothing depends on, inserted at any position/nesting, on any resource or team, pinned / dependent / anchored ALAP) are both scheduled by the real code; dates, flags and per-task bookings of all base tasks must be identical. Pairs whose effective horizon differs are discarded and counted.",
+   note="The relation needs no model of the scheduler; trusts the renderer and that the only legitimate channel is the horizon extension (discard rule). ALAP intruders and intruders in backward projects carry no own or inherited dependencies.",
+   technique="metamorphic property-based testing (Hypothesis): add-a-lowest-priority-task relation"),
 }
